@@ -809,7 +809,8 @@ func TestProp(t *testing.T) {
 			"GetOrderedNodes equals the node set ordered by the harness's own reference score (keys where two reference scores are within 1e-12 relative, 1e-9 for BigIntToFloat64, are skipped and counted), exported Score values strictly descend and match the reference, a list returned earlier is not rewritten by a later lookup or removal, the same key looked up right before and after a node is replaced by another (node count unchanged) reflects the replacement, " +
 			"a second hash holding the nodes in the other insertion order plus the new node returns the same list with only the new node inserted, RemoveNode of the drawn node only deletes it; on a subset (every 64th shard, the two-digit keys, the long keys) " +
 			"truncation to n and EVERY single-node RemoveNode and re-AddNode are checked; evaluations = ordered lists judged; non-trivial = at least 2 nodes; distinct = distinct (hash pair, node set). " +
-			"part scorefunc: batches of 64-bit values concentrated on k<<53; UInt64ToFloat64 with a murmur3 re-hasher that already absorbed 0-24 bytes must equal the documented value and lie in (0,1); evaluations = values",
+			"part scorefunc: batches of 64-bit values concentrated on k<<53; UInt64ToFloat64 with a murmur3 re-hasher that already absorbed 0-24 bytes must equal the documented value and lie in (0,1); evaluations = values. " +
+			"part neartie: 8-16 nodes (murmur3+UInt64ToFloat64), 300000-600000 consecutive 8-byte keys from a drawn start; the harness computes the reference scores of every key and hands to GetOrderedNodes (two hashes: nodes inserted as generated and reversed) only the keys whose smallest neighbouring-score gap is between 1e-11 and 1e-6 relative; the list must be the reference order; evaluations = lists judged; non-trivial = at least one such key found",
 		Assumptions: []string{
 			"reference score written from the documentation of lib/hrw (weighted rendezvous hashing: -weight/ln(u), u derived from hash(key bytes||label)) on spaolacci/murmur3 and crypto/sha256 directly",
 			"node labels are distinct, weights are positive, keys are even-length hex strings (what hex.DecodeString accepts)",
@@ -818,6 +819,7 @@ func TestProp(t *testing.T) {
 		Parts: []pbt.Part{
 			pbt.NewPart("order", 1, gen, run),
 			pbt.NewPart("scorefunc", 10, genSF, runSF),
+			pbt.NewPart("neartie", 3, genNT, runNT),
 		},
 	})
 }
